@@ -3,7 +3,7 @@ import numpy as np
 from lib import common as C, het as H
 
 GEN = []
-IMPORTS = ['C08/kernel_weights', 'C08/lottery_1d_laws', 'C08/lottery_2d_laws', 'C08/markov_laws', 'C08/combined_shock_product_rule', 'C17/robust_bracket', 'C17/coord_reproduces_query', 'C17/monotone_equals_robust']
+IMPORTS = ['C08/kernel_weights', 'C08/lottery_1d_laws', 'C08/lottery_2d_laws', 'C08/markov_laws', 'C08/multidim_index_algebra', 'C08/combined_shock_product_rule', 'C17/robust_bracket', 'C17/coord_reproduces_query', 'C17/monotone_equals_robust']
 TRUSTED = ['user-supplied backward, hetinput and hetoutput functions (called as black boxes by the reference recursion)', 'transition operators (C08)']
 ASSUMPTIONS = ['the executable Coq instance of the loops covers one exogenous Markov dimension and the 1-D policy lottery with a fixture household whose backward step is written both in Python and in Gallina; '
                'the shipped households (EGM steps with interpolation), 2-D lotteries, several exogenous dimensions and stage blocks are compared with an independent dense numpy recursion only',
